@@ -14,6 +14,14 @@ import (
 type ResolvedCallback = func(nl shared.DBNodeMap) error
 type ReporterCallback func(rpc reporter.Config, nl shared.DBNodeMap) reporter.Reporter
 
+// FlushOutput flushes the report output when a command is done and reports the failure to
+// write it out unless the command has already failed with an earlier error
+func FlushOutput(r interface{ Flush() error }, err *error) {
+	if flushErr := r.Flush(); *err == nil {
+		*err = flushErr
+	}
+}
+
 func WithResolvedDatabase(dbStream io.Reader, pc parser.Config, rc resolver.Config, cb ResolvedCallback) error {
 	if nl, err := LoadDatabaseFromStream(dbStream, pc); err == nil {
 		if nl, err = resolver.Resolve(rc, nl); err == nil {
@@ -28,9 +36,9 @@ func WithResolvedDatabase(dbStream io.Reader, pc parser.Config, rc resolver.Conf
 
 func WalkWithReporter(logStream, dbStream io.Reader, dateFormat string, pc parser.Config, rc resolver.Config, rpc reporter.Config, fc filter.Config, rpCb ReporterCallback) error {
 	return WithResolvedDatabase(dbStream, pc, rc,
-		func(nl shared.DBNodeMap) error {
+		func(nl shared.DBNodeMap) (err error) {
 			r := rpCb(rpc, nl)
-			defer r.Flush()
+			defer FlushOutput(r, &err)
 			f := filter.GetIntervalNodeFilter(fc)
 			return WalkNodesInStream(logStream, dateFormat, pc, f, r)
 		})
